@@ -37,7 +37,8 @@ class G:
     def generator(self, aid, depth):
         mode = self.rng.pick([PAR, SEQ])
         n = self.rng.weighted([(0, 2), (1, 3), (2, 4), (3, 3), (4, 1)])
-        items = [self.rng.pick(["u", "v", "w"]) + str(q) for q in range(n)]
+        # elements of any JSON type (user names, numbers, records)
+        items = [self.rng.weighted([(self.rng.pick(["u", "v", "w"]) + str(q), 5), (10 * q + 1, 2), ({"id": q, "name": "n%d" % q}, 1), (q % 2 == 0, 1)]) for q in range(n)]
         acts = []
         for j in range(self.rng.range(1, 3)):
             if depth > 0 and self.rng.chance(1, 5):
@@ -85,7 +86,8 @@ class G:
 def expansion_requests(a, out):
     """one `c16.expand` request per generator (nested ones too): the Lean definition the theorems are about is the oracle"""
     keys = [sub["key"] if sub["uses"] not in (PAR, SEQ) else "#gen%d" % j for j, sub in enumerate(a["params"]["acts"])]
-    out.append({"cmd": "c16.expand", "items": a["params"]["in"], "acts": keys})
+    # the model treats an element as a token: it is handed over as its JSON text
+    out.append({"cmd": "c16.expand", "items": [json.dumps(v, sort_keys=True) for v in a["params"]["in"]], "acts": keys})
     for sub in a["params"]["acts"]:
         if sub["uses"] in (PAR, SEQ):
             expansion_requests(sub, out)
@@ -116,7 +118,10 @@ def gen_scenario(seed, i, tier):
     ops = [["deploy", 0], ["start", "m1", {"pid": "p1"}], ["runall", policy, rng.below(1 << 30)]]
     npush = 0
     for _ in range(26):
-        if rng.chance(1, 9):
+        if i % 5 == 4 and rng.chance(1, 8):
+            # back to an earlier step: the steps after it, generators included, run again
+            ops.append(["act", "back", "p1", {"open": rng.below(3)}, {"to": rng.pick(w["steps"])["id"]}])
+        elif rng.chance(1, 9):
             s = rng.pick(w["steps"])["id"]
             npush += 1
             ops.append(["act", "push", "p1", {"nid": s, "k": 0}, {"uses": rng.pick([gen.IRQ, gen.MSG]), "key": f"pushed{npush}"}])
@@ -153,6 +158,9 @@ def analyse(sc, res):
     finished = any(o.get("k") == "pev" and o.get("ev") in ("complete", "error") for _, o in events)
     stats = {"finished": finished, "groups": 0, "fires": 0, "pushes": 0}
 
+    # a back closes what is open and runs earlier steps again: a generator it interrupts never opens its remaining groups
+    had_back = any(sc["ops"][st["op"]][0] == "act" and sc["ops"][st["op"]][1] == "back" and any(o.get("k") == "res" and o.get("ok") for o in st["obs"])
+                   for st in res.get("steps", []) if st["op"] < len(sc["ops"]))
     # ---- generated acts
     msgs = [(pos, o) for pos, (op, o) in enumerate(events) if o.get("k") == "gen"]
     by_nid = defaultdict(list)
@@ -166,14 +174,34 @@ def analyse(sc, res):
             if not inst:
                 continue
             gt = inst[0]
-            exp = Counter(expected_leaves(a, list(sc["_expand"][a["id"]])))
+            one = Counter(expected_leaves(a, list(sc["_expand"][a["id"]])))
+            # a generator whose step ran again (after a back) expands once per run
+            ran = [t for t in inst if not (len([n_ for _, o_, n_ in trs[t["tid"]]]) >= 2 and [n_ for _, o_, n_ in trs[t["tid"]]][:2] == ["ready", "skipped"])]
+            ninst = max(1, len(ran))
+            exp = Counter({k: v * ninst for k, v in one.items()})
+            if ninst > 1 or had_back:
+                gdone_all = all(t["state"] in DONE for t in ran)
+                if gdone_all or had_back:
+                    started = Counter()
+                    keys = {k for k, _, _, _ in one} | {sub["key"] for sub in all_leaf_specs(a)}
+                    for pos, o in msgs:
+                        if o["key"] in keys and ((o["uses"] == gen.IRQ and o["state"] == "created") or (o["uses"] == gen.MSG and o["state"] == "completed")):
+                            opt = (o.get("inputs") or {}).get("options") or {}
+                            started[(o["key"], o["uses"], opt.get("$index"), json.dumps(opt.get("$value"), sort_keys=True) if "$value" in opt else None)] += 1
+                    stats["groups"] += len(a["params"]["in"]) * ninst
+                    if started != exp and not any(t["state"] in ("backed", "cancelled") for tid_, t in tasks.items()):
+                        pass
+                    # acts that were open when the back arrived are closed by it, not answered: only an excess is a failure here
+                    if started - exp:
+                        bad.append((f"generated-acts-count|{a['uses'].split('.')[-1]}", f"generator {a['id']} over {a['params']['in']} ran {ninst} times; unexpected {list((started - exp).items())[:2]}"))
+                continue
             stats["groups"] += len(a["params"]["in"])
             keys = {k for k, _, _, _ in exp} | {sub["key"] for sub in all_leaf_specs(a)}
             started = Counter()
             for pos, o in msgs:
                 if o["key"] in keys and ((o["uses"] == gen.IRQ and o["state"] == "created") or (o["uses"] == gen.MSG and o["state"] == "completed")):
                     opt = (o.get("inputs") or {}).get("options") or {}
-                    started[(o["key"], o["uses"], opt.get("$index"), opt.get("$value"))] += 1
+                    started[(o["key"], o["uses"], opt.get("$index"), json.dumps(opt.get("$value"), sort_keys=True) if "$value" in opt else None)] += 1
             gdone = gt["state"] in DONE
             if gdone and started != exp:
                 miss = list((exp - started).items())[:2]
